@@ -1557,6 +1557,15 @@ Section WithCfg.
     building w (es <- into_as_slice it ;; extend_from_slice w es) ;;;
     make_into w.
 
+  (* `impl Clone for IntoIter` as written (EquivDrain.into_clone_equiv): a new vector, the slice of what is
+     left cloned onto it, a new iterator over it; into_clone above is this body with the name of the new
+     vector given and the unwinding glue (`building`) *)
+  Definition into_clone_body (it : into_it) : M into_it :=
+    w <- new_obj ;;
+    es <- into_as_slice it ;;
+    extend_from_slice w es ;;;
+    make_into w.
+
   (* src/impl/into_iter.rs, `impl Drop for IntoIter`: the body (EquivDrain.into_drop_equiv) ... *)
   Definition into_drop_body (it : into_it) : M unit :=
     let v := i_vec it in
